@@ -4,6 +4,7 @@ import (
 	"fmt"
 	"go/token"
 	"go/types"
+	"os"
 	"regexp"
 	"sort"
 	"strconv"
@@ -192,246 +193,389 @@ func extractPlan(p *Prog) (*scanPlan, error) {
 		return nil, fmt.Errorf("unresolved anchor: (*expressionStream).normalizeLicense")
 	}
 	plan := &scanPlan{Fn: norm}
-	id := norm.Params[1]
-	recvName, idName := "param:"+norm.Params[0].Name(), "param:"+norm.Params[1].Name()
-	fb := newBoundsProver(p, sharedEngineLite(p)).forFn(norm)
-	type site struct {
-		c     *ssa.Call
-		order int
-	}
-	var sites []site
-	// order: reverse post-order position of the block, then instruction index
-	rpo := map[*ssa.BasicBlock]int{}
-	{
-		seen := map[*ssa.BasicBlock]bool{}
-		var post []*ssa.BasicBlock
-		var dfs func(b *ssa.BasicBlock)
-		dfs = func(b *ssa.BasicBlock) {
-			if seen[b] {
-				return
+	var attemptsOf func(norm *ssa.Function, id *ssa.Parameter, depth int) ([]planAttempt, error)
+	attemptsOf = func(norm *ssa.Function, id *ssa.Parameter, depth int) ([]planAttempt, error) {
+		var out []planAttempt
+		// the stream the function works on (its receiver), if it has one
+		var recv ssa.Value
+		recvName := ""
+		for _, prm := range norm.Params {
+			if pt, ok := prm.Type().Underlying().(*types.Pointer); ok {
+				if n, _ := namedStruct(pt.Elem()); n != nil && n.Obj().Name() == "expressionStream" {
+					recv, recvName = prm, "param:"+prm.Name()
+				}
 			}
-			seen[b] = true
-			for i := len(b.Succs) - 1; i >= 0; i-- {
-				dfs(b.Succs[i])
-			}
-			post = append(post, b)
 		}
-		dfs(norm.Blocks[0])
-		for i, b := range post {
-			rpo[b] = len(post) - i
+		idName := "param:" + id.Name()
+		fb := newBoundsProver(p, sharedEngineLite(p)).forFn(norm)
+		// a lookup / an attempt helper returns the token as *token or as (token, bool)
+		tokenResult := func(f *ssa.Function) bool {
+			res := f.Signature.Results()
+			switch res.Len() {
+			case 1:
+				return kindOf(res.At(0).Type()) == KPtr && isTokenStruct(p, res.At(0).Type())
+			case 2:
+				return isTokenStruct(p, res.At(0).Type()) && isBoolType(res.At(1).Type())
+			}
+			return false
 		}
-	}
-	for _, b := range norm.Blocks {
-		for i, in := range b.Instrs {
-			c, ok := in.(*ssa.Call)
-			if !ok || c.Call.StaticCallee() == nil || !p.InModule(c.Call.StaticCallee()) {
-				continue
+		strArg := func(c *ssa.Call) int {
+			idx := -1
+			for i, prm := range c.Call.StaticCallee().Params {
+				if isStringType(prm.Type()) {
+					if idx >= 0 {
+						return -1
+					}
+					idx = i
+				}
 			}
-			callee := c.Call.StaticCallee()
-			res := callee.Signature.Results()
-			if res.Len() != 1 || kindOf(res.At(0).Type()) != KPtr || len(callee.Params) != 1 || !isStringType(callee.Params[0].Type()) {
-				continue
-			}
-			sites = append(sites, site{c, rpo[b]*1000 + i})
+			return idx
 		}
-	}
-	sort.Slice(sites, func(i, j int) bool { return sites[i].order < sites[j].order })
-	if len(sites) == 0 {
-		return nil, fmt.Errorf("%s: no lookup attempt of the form token := lookup(id…) was recognised in %s (the normalisation is organised in a way the decision-list extraction does not follow)", p.pos(norm.Pos()), norm.Name())
-	}
-	for _, s := range sites {
-		c := s.c
-		at := planAttempt{Pos: c.Pos(), Lookup: c.Call.StaticCallee().Name()}
-		lists, err := lookupLists(p, li, c.Call.StaticCallee())
-		if err != nil {
-			return nil, fmt.Errorf("%s: %v", p.pos(c.Pos()), err)
+		type site struct {
+			c      *ssa.Call
+			order  int
+			helper bool
 		}
-		at.Lists = lists
-		// transform
-		arg := c.Call.Args[0]
-		switch t := arg.(type) {
-		case *ssa.Parameter:
-			if t != id {
-				return nil, fmt.Errorf("%s: lookup argument is not derived from the id", p.pos(c.Pos()))
+		var sites []site
+		// order: reverse post-order position of the block, then instruction index
+		rpo := map[*ssa.BasicBlock]int{}
+		{
+			seen := map[*ssa.BasicBlock]bool{}
+			var post []*ssa.BasicBlock
+			var dfs func(b *ssa.BasicBlock)
+			dfs = func(b *ssa.BasicBlock) {
+				if seen[b] {
+					return
+				}
+				seen[b] = true
+				for i := len(b.Succs) - 1; i >= 0; i-- {
+					dfs(b.Succs[i])
+				}
+				post = append(post, b)
 			}
-			at.Transform = "id"
-		case *ssa.Slice:
-			if t.X != ssa.Value(id) || t.High == nil {
-				return nil, fmt.Errorf("%s: unrecognised argument transform", p.pos(c.Pos()))
+			dfs(norm.Blocks[0])
+			for i, b := range post {
+				rpo[b] = len(post) - i
 			}
-			hi, ok := fb.linOf(t.High, t, 0)
-			if !ok {
-				return nil, fmt.Errorf("%s: unrecognised strip length", p.pos(c.Pos()))
-			}
-			d := fb.lenOf(id, t, 0).sub(hi)
-			if !d.isConst() || !d.k.IsInt() {
-				return nil, fmt.Errorf("%s: strip length is not a constant", p.pos(c.Pos()))
-			}
-			k := int(d.k.Num().Int64())
-			at.Transform = "strip"
-			// the suffix is the guard's constant of that length
-			for cf := range fb.facts[c.Block().Index] {
-				if call, ok := cf.c.(*ssa.Call); ok && cf.pol && call.Call.StaticCallee() != nil && call.Call.StaticCallee().String() == "strings.HasSuffix" && call.Call.Args[0] == ssa.Value(id) {
-					if sfx, ok := constString(call.Call.Args[1]); ok && len(sfx) == k {
-						at.Suffix = sfx
+		}
+		for _, b := range norm.Blocks {
+			for i, in := range b.Instrs {
+				c, ok := in.(*ssa.Call)
+				if !ok || c.Call.StaticCallee() == nil || !p.InModule(c.Call.StaticCallee()) {
+					continue
+				}
+				callee := c.Call.StaticCallee()
+				if !tokenResult(callee) || strArg(c) < 0 || len(callee.Blocks) == 0 {
+					continue
+				}
+				if len(callee.Params) == 1 {
+					if _, err := lookupLists(p, li, callee); err == nil {
+						sites = append(sites, site{c, rpo[b]*1000 + i, false})
+						continue
+					} else if os.Getenv("SPDXVERIF_TRACE_PLAN") != "" {
+						fmt.Println("PLAN lookupLists", callee.Name(), err)
 					}
 				}
+				// an attempt written as a helper of its own (guard, lookup, effects inside)
+				sites = append(sites, site{c, rpo[b]*1000 + i, true})
 			}
-			if at.Suffix == "" {
-				return nil, fmt.Errorf("%s: %d bytes are stripped without a HasSuffix test of that length", p.pos(c.Pos()), k)
-			}
-		case *ssa.BinOp:
-			sfx, ok := constString(t.Y)
-			base := t.X
-			if sl, isSl := base.(*ssa.Slice); isSl && sl.X == ssa.Value(id) {
-				// id[0:len(id)]
-				hi, okHi := fb.linOf(sl.High, sl, 0)
-				if sl.High == nil || (okHi && hi.sub(fb.lenOf(id, sl, 0)).isConst() && hi.sub(fb.lenOf(id, sl, 0)).k.Sign() == 0) {
-					base = id
-				}
-			}
-			if t.Op != token.ADD || !ok || base != ssa.Value(id) {
-				return nil, fmt.Errorf("%s: unrecognised argument transform", p.pos(c.Pos()))
-			}
-			at.Transform, at.Suffix = "append", sfx
-		case *ssa.Extract:
-			// before, found := strings.CutSuffix(id, "c") — used under found
-			cut, isCall := t.Tuple.(*ssa.Call)
-			if !isCall || t.Index != 0 || cut.Call.StaticCallee() == nil || cut.Call.StaticCallee().String() != "strings.CutSuffix" || cut.Call.Args[0] != ssa.Value(id) {
-				return nil, fmt.Errorf("%s: unrecognised argument transform", p.pos(c.Pos()))
-			}
-			sfx, ok := constString(cut.Call.Args[1])
-			if !ok {
-				return nil, fmt.Errorf("%s: CutSuffix with a non-constant suffix", p.pos(c.Pos()))
-			}
-			found := false
-			for cf := range fb.facts[c.Block().Index] {
-				if ex, ok := cf.c.(*ssa.Extract); ok && cf.pol && ex.Tuple == ssa.Value(cut) && ex.Index == 1 {
-					found = true
-				}
-			}
-			if !found {
-				return nil, fmt.Errorf("%s: the result of CutSuffix is used without testing that the suffix was there", p.pos(c.Pos()))
-			}
-			at.Transform, at.Suffix, at.NeedSuffix = "strip", sfx, sfx
-		default:
-			return nil, fmt.Errorf("%s: unrecognised argument transform %T", p.pos(c.Pos()), arg)
 		}
-		// guards: the literals of the path condition of this attempt (conditions of the dominating
-		// branches, boolean helpers inlined), each of which must be one the plan models
-		classify := func(blk *ssa.BasicBlock) error {
-			for _, l := range pathLiterals(p, norm, blk) {
-				kind, val := classifyPlanLiteral(l, recvName, idName)
-				switch kind {
-				case "ignore":
-				case "needSuffix":
-					at.NeedSuffix = val
-				case "needNext":
-					at.NeedNext = val
-				case "notAfter":
-					at.NotAfter = val
-				default:
-					return fmt.Errorf("%s: the attempt depends on a condition the plan does not model: %s", p.pos(c.Pos()), l.String())
+		sort.Slice(sites, func(i, j int) bool { return sites[i].order < sites[j].order })
+		if len(sites) == 0 {
+			return nil, fmt.Errorf("%s: no lookup attempt of the form token := lookup(id…) was recognised in %s (the normalisation is organised in a way the decision-list extraction does not follow)", p.pos(norm.Pos()), norm.Name())
+		}
+		for _, s := range sites {
+			c := s.c
+			at := planAttempt{Pos: c.Pos(), Lookup: c.Call.StaticCallee().Name()}
+			classifyInto := func(at *planAttempt, blk *ssa.BasicBlock) error {
+				// the attempts' own lookups and helpers stay opaque: whether an earlier attempt found something
+				// is what the order of the decision list expresses, not a guard
+				opq := map[*ssa.Function]bool{}
+				foundAtoms := map[string]bool{}
+				pq := &quantizer{p: p, elemVar: map[ssa.Value]string{}, inlineAll: true, stop: map[string]bool{}, opaque: opq}
+				for _, sx := range sites {
+					if sx.c.Call.StaticCallee().Signature.Results().Len() == 2 {
+						opq[sx.c.Call.StaticCallee()] = true
+					}
 				}
+				for _, sx := range sites {
+					if sx.c.Call.StaticCallee().Signature.Results().Len() == 2 {
+						for _, ref := range *sx.c.Referrers() {
+							if ex, ok := ref.(*ssa.Extract); ok && ex.Index == 1 {
+								foundAtoms[pq.prov(ex, 0)] = true
+							}
+						}
+					}
+				}
+				for _, l := range pathLiteralsWith(pq, norm, blk) {
+					a := l
+					if a.Op == "not" && len(a.Args) == 1 {
+						a = a.Args[0]
+					}
+					if a.Op == "atom" && foundAtoms[a.Atom] {
+						continue
+					}
+					kind, val := classifyPlanLiteral(l, recvName, idName)
+					switch kind {
+					case "ignore":
+					case "needSuffix":
+						at.NeedSuffix = val
+					case "needNext":
+						at.NeedNext = val
+					case "notAfter":
+						at.NotAfter = val
+					default:
+						return fmt.Errorf("%s: the attempt depends on a condition the plan does not model: %s", p.pos(c.Pos()), l.String())
+					}
+				}
+				return nil
 			}
-			return nil
-		}
-		if err := classify(c.Block()); err != nil {
-			return nil, err
-		}
-		for _, eb := range nonNilEdgeBlocks(c) {
-			if err := classify(eb); err != nil {
+			classify := func(blk *ssa.BasicBlock) error { return classifyInto(&at, blk) }
+			// the token this call finds is handed on as it is: returned directly, or component-wise
+			returnedAsIs := func() (bool, []*ssa.BasicBlock) {
+				var blks []*ssa.BasicBlock
+				for _, rb := range norm.Blocks {
+					ret, ok := rb.Instrs[len(rb.Instrs)-1].(*ssa.Return)
+					if !ok || len(ret.Results) == 0 {
+						continue
+					}
+					r0 := ret.Results[0]
+					if ex, isEx := r0.(*ssa.Extract); isEx && ex.Index == 0 {
+						r0 = ex.Tuple
+					}
+					if r0 == ssa.Value(c) {
+						blks = append(blks, rb)
+					}
+				}
+				return len(blks) > 0, blks
+			}
+			if s.helper {
+				h := c.Call.StaticCallee()
+				if depth >= 3 {
+					return nil, fmt.Errorf("%s: attempt helpers nested too deep", p.pos(c.Pos()))
+				}
+				if c.Call.Args[strArg(c)] != ssa.Value(id) {
+					return nil, fmt.Errorf("%s: the attempt helper %s is not handed the id itself", p.pos(c.Pos()), h.Name())
+				}
+				sub, err := attemptsOf(h, h.Params[strArg(c)], depth+1)
+				if err != nil {
+					return nil, err
+				}
+				okRet, retBlks := returnedAsIs()
+				if !okRet {
+					return nil, fmt.Errorf("%s: the token found by %s is not returned as it is", p.pos(c.Pos()), h.Name())
+				}
+				// effects in this function after the helper's success are not modelled: there must be none
+				for _, eb := range nonNilEdgeBlocks(c) {
+					for _, b := range norm.Blocks {
+						if !(b == eb || eb.Dominates(b)) {
+							continue
+						}
+						for _, in := range b.Instrs {
+							switch x := in.(type) {
+							case *ssa.Store:
+								if _, isFA := x.Addr.(*ssa.FieldAddr); isFA {
+									return nil, fmt.Errorf("%s: the stream is modified after %s succeeded", p.pos(x.Pos()), h.Name())
+								}
+							case *ssa.Call:
+								if x != c && x.Call.StaticCallee() != nil && p.InModule(x.Call.StaticCallee()) {
+									return nil, fmt.Errorf("%s: %s is called after %s succeeded", p.pos(x.Pos()), x.Call.StaticCallee().Name(), h.Name())
+								}
+							}
+						}
+					}
+				}
+				for i := range sub {
+					// the guards on the way to the helper call (and to the return of its token) apply to each of its attempts
+					if err := classifyInto(&sub[i], c.Block()); err != nil {
+						return nil, err
+					}
+					for _, rb := range retBlks {
+						if err := classifyInto(&sub[i], rb); err != nil {
+							return nil, err
+						}
+					}
+				}
+				out = append(out, sub...)
+				continue
+			}
+			lists, err := lookupLists(p, li, c.Call.StaticCallee())
+			if err != nil {
+				return nil, fmt.Errorf("%s: %v", p.pos(c.Pos()), err)
+			}
+			at.Lists = lists
+			// transform
+			arg := c.Call.Args[0]
+			switch t := arg.(type) {
+			case *ssa.Parameter:
+				if t != id {
+					return nil, fmt.Errorf("%s: lookup argument is not derived from the id", p.pos(c.Pos()))
+				}
+				at.Transform = "id"
+			case *ssa.Slice:
+				if t.X != ssa.Value(id) || t.High == nil {
+					return nil, fmt.Errorf("%s: unrecognised argument transform", p.pos(c.Pos()))
+				}
+				hi, ok := fb.linOf(t.High, t, 0)
+				if !ok {
+					return nil, fmt.Errorf("%s: unrecognised strip length", p.pos(c.Pos()))
+				}
+				d := fb.lenOf(id, t, 0).sub(hi)
+				if !d.isConst() || !d.k.IsInt() {
+					return nil, fmt.Errorf("%s: strip length is not a constant", p.pos(c.Pos()))
+				}
+				k := int(d.k.Num().Int64())
+				at.Transform = "strip"
+				// the suffix is the guard's constant of that length
+				for cf := range fb.facts[c.Block().Index] {
+					if call, ok := cf.c.(*ssa.Call); ok && cf.pol && call.Call.StaticCallee() != nil && call.Call.StaticCallee().String() == "strings.HasSuffix" && call.Call.Args[0] == ssa.Value(id) {
+						if sfx, ok := constString(call.Call.Args[1]); ok && len(sfx) == k {
+							at.Suffix = sfx
+						}
+					}
+				}
+				if at.Suffix == "" {
+					return nil, fmt.Errorf("%s: %d bytes are stripped without a HasSuffix test of that length", p.pos(c.Pos()), k)
+				}
+			case *ssa.BinOp:
+				sfx, ok := constString(t.Y)
+				base := t.X
+				if sl, isSl := base.(*ssa.Slice); isSl && sl.X == ssa.Value(id) {
+					// id[0:len(id)]
+					hi, okHi := fb.linOf(sl.High, sl, 0)
+					if sl.High == nil || (okHi && hi.sub(fb.lenOf(id, sl, 0)).isConst() && hi.sub(fb.lenOf(id, sl, 0)).k.Sign() == 0) {
+						base = id
+					}
+				}
+				if t.Op != token.ADD || !ok || base != ssa.Value(id) {
+					return nil, fmt.Errorf("%s: unrecognised argument transform", p.pos(c.Pos()))
+				}
+				at.Transform, at.Suffix = "append", sfx
+			case *ssa.Extract:
+				// before, found := strings.CutSuffix(id, "c") — used under found
+				cut, isCall := t.Tuple.(*ssa.Call)
+				if !isCall || t.Index != 0 || cut.Call.StaticCallee() == nil || cut.Call.StaticCallee().String() != "strings.CutSuffix" || cut.Call.Args[0] != ssa.Value(id) {
+					return nil, fmt.Errorf("%s: unrecognised argument transform", p.pos(c.Pos()))
+				}
+				sfx, ok := constString(cut.Call.Args[1])
+				if !ok {
+					return nil, fmt.Errorf("%s: CutSuffix with a non-constant suffix", p.pos(c.Pos()))
+				}
+				found := false
+				for cf := range fb.facts[c.Block().Index] {
+					if ex, ok := cf.c.(*ssa.Extract); ok && cf.pol && ex.Tuple == ssa.Value(cut) && ex.Index == 1 {
+						found = true
+					}
+				}
+				if !found {
+					return nil, fmt.Errorf("%s: the result of CutSuffix is used without testing that the suffix was there", p.pos(c.Pos()))
+				}
+				at.Transform, at.Suffix, at.NeedSuffix = "strip", sfx, sfx
+			default:
+				return nil, fmt.Errorf("%s: unrecognised argument transform %T", p.pos(c.Pos()), arg)
+			}
+			// guards: the literals of the path condition of this attempt (conditions of the dominating
+			// branches, boolean helpers inlined), each of which must be one the plan models
+			if err := classify(c.Block()); err != nil {
 				return nil, err
 			}
-		}
-		if at.Transform == "strip" && at.NeedSuffix != at.Suffix && len(at.NeedSuffix) > 0 && at.Suffix != "" {
-			// the strip length was matched to a HasSuffix fact of that length above; keep both
-		}
-		// the block that returns this attempt's token
-		returned := false
-		for _, rb := range norm.Blocks {
-			if ret, ok := rb.Instrs[len(rb.Instrs)-1].(*ssa.Return); ok && len(ret.Results) == 1 && ret.Results[0] == ssa.Value(c) {
-				returned = true
+			for _, eb := range nonNilEdgeBlocks(c) {
+				if err := classify(eb); err != nil {
+					return nil, err
+				}
+			}
+			if at.Transform == "strip" && at.NeedSuffix != at.Suffix && len(at.NeedSuffix) > 0 && at.Suffix != "" {
+				// the strip length was matched to a HasSuffix fact of that length above; keep both
+			}
+			// the block that returns this attempt's token
+			returned, retBlks := returnedAsIs()
+			for _, rb := range retBlks {
 				if err := classify(rb); err != nil {
 					return nil, err
 				}
 			}
-		}
-		if !returned {
-			return nil, fmt.Errorf("%s: the token found by this attempt is not returned as it is", p.pos(c.Pos()))
-		}
-		// success effects: blocks dominated by the non-nil edge of this call's result
-		for _, eb := range nonNilEdgeBlocks(c) {
-			for _, b := range norm.Blocks {
-				if !(b == eb || eb.Dominates(b)) {
-					continue
-				}
-				for _, in := range b.Instrs {
-					// a helper method of the stream called on success: its writes are this attempt's effects
-					if hc, ok := in.(*ssa.Call); ok && hc != c {
-						if h := hc.Call.StaticCallee(); h != nil && p.InModule(h) && len(hc.Call.Args) > 0 && hc.Call.Args[0] == ssa.Value(norm.Params[0]) && len(h.Params) > 0 {
-							hfb := newBoundsProver(p, sharedEngineLite(p)).forFn(h)
-							for _, hb := range h.Blocks {
-								for _, hin := range hb.Instrs {
-									hst, ok := hin.(*ssa.Store)
-									if !ok {
-										continue
-									}
-									hfa, ok := hst.Addr.(*ssa.FieldAddr)
-									if !ok || hfa.X != ssa.Value(h.Params[0]) {
-										continue
-									}
-									switch {
-									case isStringType(hst.Val.Type()):
-										at.EmitPlus = rewritesSuffixToPlus(hst.Val)
-										if !at.EmitPlus {
-											return nil, fmt.Errorf("%s: buffer rewrite of an unrecognised form", p.pos(hst.Pos()))
+			if !returned {
+				return nil, fmt.Errorf("%s: the token found by this attempt is not returned as it is", p.pos(c.Pos()))
+			}
+			// success effects: blocks dominated by the non-nil edge of this call's result
+			for _, eb := range nonNilEdgeBlocks(c) {
+				for _, b := range norm.Blocks {
+					if !(b == eb || eb.Dominates(b)) {
+						continue
+					}
+					for _, in := range b.Instrs {
+						// a helper method of the stream called on success: its writes are this attempt's effects
+						if hc, ok := in.(*ssa.Call); ok && hc != c {
+							if h := hc.Call.StaticCallee(); h != nil && p.InModule(h) && len(hc.Call.Args) > 0 && recv != nil && hc.Call.Args[0] == recv && len(h.Params) > 0 {
+								hfb := newBoundsProver(p, sharedEngineLite(p)).forFn(h)
+								for _, hb := range h.Blocks {
+									for _, hin := range hb.Instrs {
+										hst, ok := hin.(*ssa.Store)
+										if !ok {
+											continue
 										}
-									case isIntType(hst.Val.Type()):
-										nv, ok1 := hfb.linOf(hst.Val, hst, 0)
-										cls := "fld:" + fieldOf(hfa).String()
-										old := linVar(fmt.Sprintf("mem(%s.%s@%s)", hfb.vid(hfa.X, hst), fieldOf(hfa).Field, hfb.versionAt(cls, hst)))
-										if ok1 {
-											d := nv.sub(old)
-											if d.isConst() && d.k.IsInt() && d.k.Sign() > 0 {
-												at.Consume = int(d.k.Num().Int64())
+										hfa, ok := hst.Addr.(*ssa.FieldAddr)
+										if !ok || hfa.X != ssa.Value(h.Params[0]) {
+											continue
+										}
+										switch {
+										case isStringType(hst.Val.Type()):
+											at.EmitPlus = rewritesSuffixToPlus(hst.Val)
+											if !at.EmitPlus {
+												return nil, fmt.Errorf("%s: buffer rewrite of an unrecognised form", p.pos(hst.Pos()))
+											}
+										case isIntType(hst.Val.Type()):
+											nv, ok1 := hfb.linOf(hst.Val, hst, 0)
+											cls := "fld:" + fieldOf(hfa).String()
+											old := linVar(fmt.Sprintf("mem(%s.%s@%s)", hfb.vid(hfa.X, hst), fieldOf(hfa).Field, hfb.versionAt(cls, hst)))
+											if ok1 {
+												d := nv.sub(old)
+												if d.isConst() && d.k.IsInt() && d.k.Sign() > 0 {
+													at.Consume = int(d.k.Num().Int64())
+												}
 											}
 										}
 									}
 								}
 							}
 						}
-					}
-					st, ok := in.(*ssa.Store)
-					if !ok {
-						continue
-					}
-					fa, ok := st.Addr.(*ssa.FieldAddr)
-					if !ok || fa.X != ssa.Value(norm.Params[0]) {
-						continue
-					}
-					switch {
-					case isStringType(st.Val.Type()):
-						at.EmitPlus = rewritesSuffixToPlus(st.Val)
-						if !at.EmitPlus {
-							return nil, fmt.Errorf("%s: buffer rewrite of an unrecognised form", p.pos(st.Pos()))
+						st, ok := in.(*ssa.Store)
+						if !ok {
+							continue
 						}
-					case isIntType(st.Val.Type()):
-						nv, ok1 := fb.linOf(st.Val, st, 0)
-						cls := "fld:" + fieldOf(fa).String()
-						old := linVar(fmt.Sprintf("mem(%s.%s@%s)", fb.vid(fa.X, st), fieldOf(fa).Field, fb.versionAt(cls, st)))
-						if ok1 {
-							d := nv.sub(old)
-							if d.isConst() && d.k.IsInt() && d.k.Sign() > 0 {
-								at.Consume = int(d.k.Num().Int64())
+						fa, ok := st.Addr.(*ssa.FieldAddr)
+						if !ok || recv == nil || fa.X != recv {
+							continue
+						}
+						switch {
+						case isStringType(st.Val.Type()):
+							at.EmitPlus = rewritesSuffixToPlus(st.Val)
+							if !at.EmitPlus {
+								return nil, fmt.Errorf("%s: buffer rewrite of an unrecognised form", p.pos(st.Pos()))
+							}
+						case isIntType(st.Val.Type()):
+							nv, ok1 := fb.linOf(st.Val, st, 0)
+							cls := "fld:" + fieldOf(fa).String()
+							old := linVar(fmt.Sprintf("mem(%s.%s@%s)", fb.vid(fa.X, st), fieldOf(fa).Field, fb.versionAt(cls, st)))
+							if ok1 {
+								d := nv.sub(old)
+								if d.isConst() && d.k.IsInt() && d.k.Sign() > 0 {
+									at.Consume = int(d.k.Num().Int64())
+								}
 							}
 						}
 					}
 				}
 			}
+			out = append(out, at)
 		}
-		plan.Attempts = append(plan.Attempts, at)
+		return out, nil
 	}
+	attempts, err := attemptsOf(norm, norm.Params[1], 0)
+	if err != nil {
+		return nil, err
+	}
+	plan.Attempts = attempts
 	// parser side
 	if pl := p.Func(p.ExpPkg, "(*tokenStream).parseLicense"); pl != nil {
 		for _, sfx := range plusSuffixes(p, pl) {
